@@ -360,6 +360,16 @@ def alphabet(tier):
         if tier == "thorough" and len(trees) == 2:
             for pair in itertools.combinations(files_of_trees(trees), 2):
                 ops.append(("xfer", r, list(pair)))
+    for r in ("c1", "c12", "e1"):
+        # the same faults surfacing as FileNotFoundError (the remote directory vanished under the upload)
+        trees, _closed = REQUESTS[r]
+        ops.append(("xfer", r, [TREE_OID[trees[0]]], "enoent"))
+        ops.append(("xfer", r, [files_of_trees(trees)[0]], "enoent"))
+    # the process killed on entering the k-th index transaction of a transfer / of a status query
+    for k in (1, 2, 3):
+        ops.append(("kxfer", "c1", k))
+    ops.append(("kxfer", "e12", 1))
+    ops.append(("kstatus", "dirs", 1))
     for o in FILES + [TREE_OID[t] for t in TREES]:
         ops.append(("del", o))
     ops.append(("status", "closed"))
@@ -368,6 +378,35 @@ def alphabet(tier):
     ops.append(("status", "dir-T1"))
     ops.append(("status", "dir-T2"))
     return ops
+
+
+def _killed(fn, k):
+    """Run fn() in a forked child that is killed on entering its k-th index transaction (k = 0, 1, ...).
+    Returns True if the child was killed there, False if it finished first."""
+    from dvc_data.hashfile.cache import Index
+
+    pid = os.fork()
+    if pid == 0:
+        try:
+            seen = [0]
+            orig = Index.transact
+
+            def transact(self, *a, **kw):
+                if seen[0] == k:
+                    os._exit(77)
+                seen[0] += 1
+                return orig(self, *a, **kw)
+
+            Index.transact = transact
+            fn()
+        except BaseException:  # noqa: BLE001
+            os._exit(3)
+        os._exit(0)
+    _pid, st = os.waitpid(pid, 0)
+    code = os.waitstatus_to_exitcode(st)
+    if code not in (0, 77):
+        raise RuntimeError(f"killed-operation child ended with {code}")
+    return code == 77
 
 
 def run_history(hist, init="empty"):
@@ -386,6 +425,11 @@ def run_history(hist, init="empty"):
                 fill_store(xw.dest, [TREE_OID["T1"]])
                 delivered.add(TREE_OID["T1"])
                 status(xw.dest, {hi(TREE_OID["T1"])}, index=xw.index, cache_odb=xw.src, jobs=1)
+            if init == "orphan-dir-indexing-killed":
+                # the same, but the indexing status query was killed between its index transactions
+                fill_store(xw.dest, [TREE_OID["T1"]])
+                delivered.add(TREE_OID["T1"])
+                _killed(lambda: status(xw.dest, {hi(TREE_OID["T1"])}, index=xw.index, cache_odb=xw.src, jobs=1), 1)
             if init == "src-lacks-y":
                 # a file listed by T1 is in neither store: T1 can never be completed
                 os.unlink(xw.src.oid_to_path(MD5["y"]))
@@ -397,11 +441,23 @@ def run_history(hist, init="empty"):
                     ids = xw.request(trees, closed=closed)
                     order = [TREE_OID[t] for t in trees]
                     try:
-                        xw.transfer(ids, plan=Plan(fail_oids=op[2]), order=order, shallow=closed)
+                        xw.transfer(ids, plan=Plan(fail_oids=op[2], enoent=len(op) > 3), order=order, shallow=closed)
                     except Exception as e:  # noqa: BLE001
                         viol.append((f"transfer-raises-{type(e).__name__}", f"step {i} {op}: {e!r}"))
                     after = set(objects_only(store_snapshot(xw.dest.path)))
                     delivered |= after - before
+                elif op[0] == "kxfer":
+                    # the transfer's process is killed on entering its k-th index transaction
+                    trees, closed = REQUESTS[op[1]]
+                    ids = xw.request(trees, closed=closed)
+                    order = [TREE_OID[t] for t in trees]
+                    _killed(lambda: xw.transfer(ids, plan=Plan(), order=order, shallow=closed), op[2])
+                    after = set(objects_only(store_snapshot(xw.dest.path)))
+                    delivered |= after - before
+                elif op[0] == "kstatus":
+                    q = [TREE_OID[t] for t in TREES]
+                    _killed(lambda: status(xw.dest, {hi(o) for o in q}, index=xw.index, cache_odb=xw.src,
+                                           shallow=True, jobs=1), op[2])
                 elif op[0] == "del":
                     p = xw.dest.oid_to_path(op[1])
                     if os.path.exists(p):
@@ -460,7 +516,9 @@ def show(hist):
     out = []
     for op in hist:
         if op[0] == "xfer":
-            out.append(f"xfer({op[1]},fail={[name_of(o) for o in op[2]]})")
+            out.append(f"xfer({op[1]},fail={[name_of(o) for o in op[2]]}{',ENOENT' if len(op) > 3 else ''})")
+        elif op[0] in ("kxfer", "kstatus"):
+            out.append(f"{op[0]}({op[1]},killed-at-index-transaction={op[2]})")
         elif op[0] == "del":
             out.append(f"del({name_of(op[1])})")
         else:
@@ -480,6 +538,8 @@ def hist_case(case):
             seen.add(sig)
             res["viol"].append((sig, detail, {"part": "hist", "hist": case["hist"], "init": case.get("init", "empty")}))
     res["vac"]["histories_with_fault"] = 1 if any(o[0] == "xfer" and o[2] for o in hist) else 0
+    res["vac"]["histories_with_kill"] = 1 if any(o[0] in ("kxfer", "kstatus") for o in hist) else 0
+    res["vac"]["histories_with_enoent_fault"] = 1 if any(o[0] == "xfer" and len(o) > 3 for o in hist) else 0
     res["vac"]["histories_with_delete_then_status"] = 1 if any(
         a[0] == "del" and b[0] == "status" for a, b in zip(hist, hist[1:])) else 0
     return res
@@ -513,8 +573,8 @@ def run(ctx):
         "x every non-empty query over those ids + an absent id x shallow/expanded, both store classes; "
         "compare_status against every source content of <= 2 objects; (b) BFS over histories of depth "
         f"<= {depth} over {len(ops)} operations (closed/expanded transfers of T1, T2, T1+T2 in both directory "
-        "orders with no fault or any single (thorough: also pairs of) failing upload; external deletion of each "
-        "object; 3 status queries) sharing one ObjectDBIndex, canonical-state de-duplication from depth 2; "
+        "orders with no fault or any single (thorough: also pairs of) failing upload - EIO, and for three requests also FileNotFoundError on the first directory object / file; external deletion of each "
+        "object; the process of a transfer / a status query killed on entering its k-th index transaction; 5 status queries) sharing one ObjectDBIndex, canonical-state de-duplication from depth 2; "
         "non-trivial = query of >= 2 ids on a non-empty store / history of >= 2 operations"
     )
     ctx.bound = {"history_depth": depth, "alphabet": len(ops), "trees": {t: LISTING[t] for t in TREES}}
@@ -524,12 +584,15 @@ def run(ctx):
         "put it into the store; it is evaluated after every library operation (not right after an external "
         "deletion, which only the next indexed operation can notice); histories start from an empty destination "
         "and index, from a destination holding T1's directory object alone, already indexed by a status query, "
-        "and from a source that lacks a file T1 lists (missing on both sides)",
+        "from a source that lacks a file T1 lists (missing on both sides), and from that orphan directory object with "
+        "the indexing status query killed between its two index transactions; the kill operations end the process "
+        "(fork + _exit) on entering the k-th index transaction - a kill inside a transaction rolls back to the same state",
         "canonical state = (objects in the destination, index contents, delivered set); temp files and "
         "timestamps are dropped (no operation of the alphabet observes them)",
     ]
     ctx.require("strategy_list_oids_exists", "strategy_traverse", "expanded_queries", "compare_runs",
-                "histories_with_fault", "histories_with_delete_then_status", "special_runs")
+                "histories_with_fault", "histories_with_delete_then_status", "special_runs",
+                "histories_with_enoent_fault", "histories_with_kill")
     universe = FILES + [TREE_OID[t] for t in TREES]
     cs = []
     for kind in ("base", "local"):
@@ -545,7 +608,7 @@ def run(ctx):
     # (b) BFS
     nodedup = 3 if ctx.tier == "thorough" else 2
     grand = 0
-    for init in ("empty", "orphan-dir-indexed", "src-lacks-y"):
+    for init in ("empty", "orphan-dir-indexed", "src-lacks-y", "orphan-dir-indexing-killed"):
         seen = set()
         frontier = [[]]
         total = 0
